@@ -5,7 +5,7 @@ import os
 import re
 
 import units as U
-from weave import LostAnchor, Source, Woven, sections
+from weave import LostAnchor, Source, Woven, sections, guard_bindings
 
 VERIF = U.VERIF
 CORE_FNS = ["signed_shift", "unsigned_shift", "open", "free_variables", "is_value", "step", "step_strict", "evaluate"]
@@ -146,14 +146,17 @@ def build_conv(repo, external=(), canary=None, with_witness=True, boost=False):
     b.add(U.read("spec/conv_lemmas.rs"))
 
     eq_rs = Source(repo, "src/equality.rs")
+    guard_bindings(eq_rs, {"unsigned_shift": "de_bruijn", "syntactically_equal": ""}, own=("syntactically_equal",))
     se = Woven(eq_rs, "fn", "syntactically_equal", log)
     U.strip_clippy(se)
     weave_syntactically_equal(se, sc)
     no_rs = Source(repo, "src/normalizer.rs")
+    guard_bindings(no_rs, {"open": "de_bruijn", "unsigned_shift": "de_bruijn", "normalize_weak_head": ""}, own=("normalize_weak_head",))
     nw = Woven(no_rs, "fn", "normalize_weak_head", log)
     U.strip_clippy(nw)
     weave_normalize(nw, sc)
     un_rs = Source(repo, "src/unifier.rs")
+    guard_bindings(un_rs, {"signed_shift": "de_bruijn", "syntactically_equal": "equality", "normalize_weak_head": "normalizer", "unify": ""}, own=("unify",))
     un = Woven(un_rs, "fn", "unify", log)
     U.strip_clippy(un)
     weave_unify(un, sc)
